@@ -670,6 +670,41 @@ var nativeBins = map[string]string{}
 // nativeBinary builds (once) a test binary of the native variant of the harness
 // package of s in which every harness function of that package can be selected with
 // VERIF_HARNESS.
+// overlayOtherPackages adds the native harness files (and the native API) of the
+// other packages of this property, so that a harness may use exported helpers that
+// another package's harness file provides.
+func overlayOtherPackages(dir string, repl map[string]string, own string) error {
+	done := map[string]bool{own: true}
+	for _, hf := range allHarnessFiles {
+		if hf.PkgRel == own || !forNative(hf.Path) {
+			continue
+		}
+		sub := "o_" + strings.ReplaceAll(hf.PkgRel, "/", "_")
+		dst := filepath.Join(dir, sub+"_"+filepath.Base(hf.Path))
+		b, err := os.ReadFile(hf.Path)
+		if err != nil {
+			return err
+		}
+		os.WriteFile(dst, b, 0o644)
+		repl[filepath.Join(repoDir, hf.PkgRel, "zz_verif_"+filepath.Base(hf.Path))] = dst
+		if !done[hf.PkgRel] {
+			done[hf.PkgRel] = true
+			name, err := pkgNameOf(hf.PkgRel)
+			if err != nil {
+				return err
+			}
+			api, err := apiSource("native", name)
+			if err != nil {
+				return err
+			}
+			ap := filepath.Join(dir, sub+"_api.go")
+			os.WriteFile(ap, api, 0o644)
+			repl[filepath.Join(repoDir, hf.PkgRel, "zz_verif_api.go")] = ap
+		}
+	}
+	return nil
+}
+
 func nativeBinary(sc *scratch, s *harnessSpec, all []*harnessSpec) (string, string) {
 	if b, ok := nativeBins[s.PkgRel]; ok {
 		return b, ""
@@ -699,6 +734,9 @@ func nativeBinary(sc *scratch, s *harnessSpec, all []*harnessSpec) (string, stri
 	apiPath := filepath.Join(dir, "api.go")
 	os.WriteFile(apiPath, api, 0o644)
 	repl[filepath.Join(repoDir, s.PkgRel, "zz_verif_api.go")] = apiPath
+	if err := overlayOtherPackages(dir, repl, s.PkgRel); err != nil {
+		return "", err.Error()
+	}
 	var reg strings.Builder
 	seen := map[string]bool{}
 	for _, o := range all {
@@ -983,6 +1021,9 @@ func nativeReplay(sc *scratch, s *harnessSpec, all []*harnessSpec, v symgo.Viola
 	apiPath := filepath.Join(dir, "api.go")
 	os.WriteFile(apiPath, api, 0o644)
 	repl[filepath.Join(repoDir, s.PkgRel, "zz_verif_api.go")] = apiPath
+	if err := overlayOtherPackages(dir, repl, s.PkgRel); err != nil {
+		return false, err.Error()
+	}
 	test := fmt.Sprintf(`package %s
 
 import "testing"
